@@ -12,6 +12,7 @@
 //                 x tid functor k (the call that threw) / calls tid op functor=n ... / fault tid op functor k fired / dead <node ids>
 // Built with -fno-access-control and the E-SHIM prelude.  Property monitors are independent of the Lean model.
 #include "c12_common.h"
+#include <functional>
 #include <oneapi/tbb/concurrent_unordered_set.h>
 #include <oneapi/tbb/concurrent_unordered_map.h>
 
@@ -213,6 +214,31 @@ static bool run_once(verif::Schedule& sch, int run_idx, int print) {
             } else if (is_size_op(o)) {
                 OpScope sc(t, i);
                 r.vals.push_back(size_op(o));
+            } else if (o.name == "rtrav") {
+                // traversal through range(): the range is split (as a parallel algorithm would) into up to 4 sub-ranges, each walked with
+                // begin()/end() re-read on every step; together they must see every element that was present before exactly once
+                std::set<const void*> before = elems_done;
+                std::vector<const void*> addrs;
+                typedef typename C::range_type range_t;
+                size_t n = 0;
+                // depth-first like parallel_for: a sub-range is split again only when it is reached, i.e. after concurrent inserts may have
+                // changed what lies inside it
+                std::function<void(range_t&, int)> walk = [&](range_t& x, int depth) {
+                    if (depth < 3 && x.is_divisible()) {
+                        range_t right(x, tbb::split());
+                        walk(x, depth + 1); walk(right, depth + 1);
+                        return;
+                    }
+                    for (auto it = x.begin(); it != x.end(); ++it) {
+                        if (++n > walk_bound) { fail("range traversal does not terminate / runs past its end"); break; }
+                        node_ptr np = it.get_node_ptr();
+                        if (arena().is_dead(np)) fail("range traversal walks through a deallocated node");
+                        r.vals.push_back(T::key(*it)); addrs.push_back(&*it);
+                    }
+                };
+                range_t whole = c.range();
+                walk(whole, 0);
+                check_traversal(r.vals, addrs, before, "traversal through range() sub-ranges");
             } else if (o.name == "trav") {
                 std::set<const void*> before = elems_done;
                 std::vector<const void*> addrs;
